@@ -105,7 +105,48 @@ def index_inventory(ctx, r7, R):
         if not ok:
             r7.fail('%s/index/%s' % (b.nid, elem), mirq.site(b, bb),
                     'a position-indexed access in compile-phase code is neither dominated by a comparison of the index with the length of the same collection nor listed with the invariant that bounds it: source text can make the compiler panic (index out of bounds)')
-    r7.need(12)
+    # (b) byte slicing of source text: a bound that is a numeric constant (other than 0) or constant arithmetic is not a
+    #     char boundary in general -- `&text[..120]` panics when a multi-byte character straddles byte 120
+    from .lib import units
+    n_sl = 0
+    for bid in sorted(R):
+        b = mir.by_id[bid]
+        if b.file not in COMPILE_FILES + ('src/compile_err.rs',):
+            continue
+        for bb, tm in b.calls():
+            names = [strip_generics(x) for x in (tm.get('callee'), tm.get('decl')) if x]
+            if not (any(units.STR_INDEX.match(n) for n in names) and len(tm['args']) == 2 and (tm.get('argtys') or [''])[0].lstrip('&').strip() == 'str'):
+                continue
+            n_sl += 1
+            k, v = mirq.chase_op(b, tm['args'][1])
+            bounds = v[2]['rv']['ops'] if k == 'rv' and v[2]['rv']['k'] == 'agg' else []
+            bad = []
+            for o in bounds:
+                if 'const' in o:
+                    if o['const'].get('int') != '0':
+                        bad.append('the constant %s' % (o['const'].get('int') or o['const'].get('uneval') or o['const'].get('s')))
+                    continue
+                pl = op_place(o)
+                if pl is None:
+                    continue
+                # constant arithmetic on the way to the bound, or a named constant
+                sl = mirq.backslice(b, [pl['l']])
+                for i2, j2, s2 in b.stmts():
+                    if s2['k'] == 'assign' and not s2['place']['p'] and s2['place']['l'] in sl:
+                        rv2 = s2['rv']
+                        if rv2['k'] == 'bin' and rv2['op'] in ('Add', 'Sub', 'AddWithOverflow', 'SubWithOverflow', 'Mul', 'Div') and any('const' in rv2[x] for x in ('a', 'b')):
+                            bad.append('arithmetic with a constant (%s)' % rv2['op'])
+                        if rv2['k'] == 'use' and 'const' in rv2['op'] and rv2['op']['const'].get('int') != '0' and s2['place']['l'] == pl['l']:
+                            bad.append('the constant %s' % (rv2['op']['const'].get('int') or rv2['op']['const'].get('uneval') or rv2['op']['const'].get('s')))
+                if not sl - {pl['l']} and not b.defs().get(pl['l']) and not (1 <= pl['l'] <= b.d['argc']):
+                    pass
+            fnn = b.nid.split('::{closure')[0].split('::')[-1]
+            r7.inst({'body': b.nid, 'site': mirq.site(b, bb), 'slice_of_source_text': True, 'constant_bounds': bad}, ok=not bad, kind=(b.nid, bb, 'slice'))
+            if bad:
+                r7.fail('%s/str-slice/constant-bound' % b.nid, mirq.site(b, bb), 'source text is sliced at %s: not a character boundary in general, so text with a multi-byte character there makes the compiler panic' % ', '.join(sorted(set(bad))))
+    if n_sl < 2:
+        r7.fail('anchor/str-slices', 'src', 'fewer source-text slices found in the compile phase than confirmed by hand (%d)' % n_sl)
+    r7.need(14)
 
 
 def debug_hash_order(ctx, r8, R):
